@@ -273,6 +273,14 @@ def _pg_ldap_worker(_):
         wire = ref.ldap_starttls_response(0, mid, b'dc=x', b'diag')
         both_ways(acc, ldap.LDAPExtendedResponseStartTLS, wire, None, 'ldap_response',
                   lambda o: None if o.result_code == ldap.LDAPResultCode.SUCCESS else 'result_code', {'kind': 'ldap_response', 'mid': mid})
+    # lengths around the DER short / long form boundaries (127/128, 255/256, 65535/65536) of every nesting level: a
+    # diagnosticMessage or matchedDN of n octets moves the enclosing lengths across them one after the other
+    for n in list(range(100, 135)) + [0, 1, 2, 240, 250, 255, 256, 257, 300, 65400, 65535, 65536, 70000]:
+        for dn, diag in ((b'', b'd' * n), (b'm' * n, b''), (b'm' * (n // 2), b'd' * (n - n // 2))):
+            wire = ref.ldap_starttls_response(0, 1, dn, diag)
+            both_ways(acc, ldap.LDAPExtendedResponseStartTLS, wire, None, 'ldap_response_len',
+                      lambda o: None if o.result_code == ldap.LDAPResultCode.SUCCESS else 'result_code',
+                      {'kind': 'ldap_response_len', 'n': n, 'dn': len(dn), 'diag': len(diag)})
     # BER, not DER: RFC 4511 s5.1 restricts LDAP to the definite length form but does not demand the minimal number of
     # length octets (Active Directory writes 30 84 00 00 00 nn ...).  Every assignment of {minimal, 1, 4} length octets
     # to the TLVs of a request and of a response (with and without responseName) is a conformant encoding of the same
